@@ -6,6 +6,8 @@ package main
 
 import (
 	"fmt"
+	"go/ast"
+	"go/types"
 	"sort"
 	"strings"
 )
@@ -358,4 +360,173 @@ func (t *translator) explainAll(fuel int) []failure {
 		}
 	}
 	return out
+}
+
+// ---------- entry requirements of unexported helpers ----------
+//
+// A helper that touches a guarded field without locking is correct when every caller holds the lock. Which helpers
+// those are used to be declared in the guards file by name; the translator now finds them itself, so that extracting
+// or renaming such a helper does not turn into an alarm. Only functions all of whose callers are visible qualify:
+// unexported, not a function literal, never started with go, never referenced as a value, not a method whose name
+// occurs in an interface of the module. What is inferred is an OBLIGATION, not an assumption: the generated program
+// carries it as Need commands and the verified checker demands the lock at every call site.
+
+type inferState struct {
+	held, defers []int
+}
+
+// missingIn walks the body of f with the semantics of the checker, except that an access (or a callee's entry
+// requirement) whose lock is not held is recorded instead of failing; calls are not entered
+func (t *translator) missingIn(f *fn) map[int]bool {
+	miss := map[int]bool{}
+	var run func(c *cmd, held []int) [][]int
+	dedup := func(hs [][]int) [][]int {
+		seen := map[string]bool{}
+		var out [][]int
+		for _, h := range hs {
+			k := fmt.Sprint(h)
+			if !seen[k] {
+				seen[k] = true
+				out = append(out, h)
+			}
+		}
+		return out
+	}
+	need := func(held []int, id int) []int {
+		if has(held, id) {
+			return held
+		}
+		miss[id] = true
+		// go on as if it were held, so that one missing lock is reported once
+		out := append([]int{id}, held...)
+		if (id-1)%3 == 0 { // W implies any
+			out = append([]int{id + 2}, out...)
+		}
+		return out
+	}
+	run = func(c *cmd, held []int) [][]int {
+		switch c.op {
+		case "Acq":
+			return [][]int{append([]int{c.n}, held...)}
+		case "Rel":
+			if h, ok := remove1(held, c.n); ok {
+				return [][]int{h}
+			}
+			return [][]int{held}
+		case "Acc":
+			return [][]int{need(held, t.guardOf(c.n))}
+		case "Need":
+			return [][]int{need(held, c.n)}
+		case "Seq":
+			var out [][]int
+			for _, h := range run(c.a, held) {
+				out = append(out, run(c.b, h)...)
+			}
+			return dedup(out)
+		case "Alt":
+			return dedup(append(run(c.a, held), run(c.b, held)...))
+		case "Loop", "Sw":
+			return dedup(append([][]int{held}, run(c.a, held)...))
+		case "Call":
+			callee := t.fns[c.n]
+			h := held
+			for _, p := range callee.needs {
+				h = need(h, p)
+			}
+			return [][]int{h}
+		}
+		return [][]int{held}
+	}
+	run(f.bodyCmd, append([]int{}, f.pre...))
+	return miss
+}
+
+func (t *translator) inferNeeds() {
+	// names of interface methods declared in the module: such methods can be called through the interface
+	ifaceMethods := map[string]bool{}
+	for _, p := range t.pkgs {
+		for _, name := range p.pkg.Scope().Names() {
+			tn, ok := p.pkg.Scope().Lookup(name).(*types.TypeName)
+			if !ok {
+				continue
+			}
+			if it, ok := tn.Type().Underlying().(*types.Interface); ok {
+				for i := 0; i < it.NumMethods(); i++ {
+					ifaceMethods[it.Method(i).Name()] = true
+				}
+			}
+		}
+	}
+	called := map[int]bool{}
+	for _, f := range t.fns {
+		f.bodyCmd.calls(func(c *cmd) { called[c.n] = true })
+	}
+	eligible := func(f *fn) bool {
+		if f.declared || f.exempt || f.goEntry || f.asValue || strings.Contains(f.name, "$") || !called[f.idx] {
+			return false
+		}
+		short := f.name[strings.LastIndex(f.name, ".")+1:]
+		if short == "" || ast.IsExported(short) || ifaceMethods[short] || short == "init" || short == "main" {
+			return false
+		}
+		return true
+	}
+	for round := 0; round < 64; round++ {
+		changed := false
+		for _, f := range t.fns {
+			if !eligible(f) {
+				continue
+			}
+			miss := t.missingIn(f)
+			var ids []int
+			for id := range miss {
+				ids = append(ids, id)
+			}
+			sort.Ints(ids)
+			for _, id := range ids {
+				i := (id - 1) / 3
+				switch (id - 1) % 3 {
+				case 0: // write lock
+					if !has(f.pre, idW(i)) {
+						// a read requirement found earlier is upgraded
+						f.pre, _ = remove1or(f.pre, idR(i))
+						if !has(f.pre, idAny(i)) {
+							f.pre = append([]int{idAny(i)}, f.pre...)
+							f.needs = append(f.needs, idAny(i))
+						}
+						f.pre = append([]int{idW(i)}, f.pre...)
+						f.needs = append(f.needs, idW(i))
+						changed = true
+					}
+				default: // read (or any) mode is enough
+					if !has(f.pre, idAny(i)) {
+						f.pre = append([]int{idAny(i), idR(i)}, f.pre...)
+						f.needs = append(f.needs, idAny(i))
+						changed = true
+					}
+				}
+			}
+		}
+		if !changed {
+			break
+		}
+	}
+	for _, f := range t.fns {
+		if f.declared || len(f.pre) == 0 {
+			continue
+		}
+		for _, p := range f.pre {
+			if (p-1)%3 != 2 {
+				f.inferred = append(f.inferred, t.lockName(p))
+			}
+		}
+		sort.Strings(f.inferred)
+	}
+}
+
+func remove1or(l []int, x int) ([]int, bool) {
+	if out, ok := remove1(l, x); ok {
+		return out, true
+	}
+	return l, false
 }
